@@ -6,6 +6,5 @@ CONSTANTS
   MaxHeight = 1
   MaxRound = 0
 INVARIANTS TypeOK NoHonestEquivocation VoteproofAgreement ChainAgreement SavedOnlyAgreed ChainLinked OneProposalPerPoint
-PROPERTIES LastMonotone
-CONSTRAINT Bound
+PROPERTIES LastMonotone BoxLastMonotone
 CHECK_DEADLOCK FALSE
